@@ -293,3 +293,218 @@ func verifC02Tx(maxIn, maxOut int) {
 
 func VerifC02TxQuick()    { verifC02Tx(2, 2) }
 func VerifC02TxThorough() { verifC02Tx(3, 3) }
+
+// ---------------------------------------------------------------- C03
+
+type c03tx struct {
+	tx    *pb.Transaction
+	utxo  []string // consumed outputs "txid/offset"
+	keyIn []string // key versions read: "k@version"
+	wkey  string   // key written ("" none)
+	deps  []int    // family members whose outputs/versions it consumes
+}
+
+// verifC03: K operations over a family of conflicting / dependent transactions:
+//   p1: root/0 -> C x, A 9-x; writes k1 (never-written)     p2: root/0 -> B 9; reads k1 (never-written)
+//   p3: root/1 -> C 5; writes k1 (never-written)             p4: p1/0 -> A x            (depends on p1)
+//   q1, q2: each reads k1 at p3's version and overwrites it  (depend on p3, conflict with each other)
+// Operations: DoTx(any member), or a peer block (coinbase + one of p1,p2,p3) confirmed and played.
+// Oracle: unspent outputs and key versions maintained from the successful operations only.
+func verifC03(K int) {
+	e := vkit.NewEnv("c03", vkit.Genesis("0", "9", "5"), nil)
+	s := e.NewState("live")
+	vrt.Assert(s.Play(e.Root.Blockid) == nil, "genesis-plays")
+	root := e.RootTx.Txid
+	nine, five := big.NewInt(9), big.NewInt(5)
+	x := big.NewInt(vrt.Int("x", 1, 9))
+	val := vrt.Bytes("val", 1)
+	vrt.Assume(val[0] != 0)
+	p1 := vkit.WithKey(vkit.Tx("p1", []*protos.TxInput{vkit.In(root, 0, "A", nine)}, []*protos.TxOutput{vkit.Out("C", x, 0), vkit.Out("A", new(big.Int).Sub(nine, x), 0)}), "bk", "k1", nil, 0, val)
+	p2 := vkit.WithKey(vkit.Tx("p2", []*protos.TxInput{vkit.In(root, 0, "A", nine)}, []*protos.TxOutput{vkit.Out("B", nine, 0)}), "bk", "k1", nil, 0, nil)
+	p3 := vkit.WithKey(vkit.Tx("p3", []*protos.TxInput{vkit.In(root, 1, "B", five)}, []*protos.TxOutput{vkit.Out("C", five, 0)}), "bk", "k1", nil, 0, []byte("p3"))
+	p4 := vkit.Tx("p4", []*protos.TxInput{vkit.In([]byte("p1"), 0, "C", x)}, []*protos.TxOutput{vkit.Out("A", x, 0)})
+	q1 := vkit.WithKey(vkit.Tx("q1", nil, nil), "bk", "k1", []byte("p3"), 0, []byte("q1"))
+	q2 := vkit.WithKey(vkit.Tx("q2", nil, nil), "bk", "k1", []byte("p3"), 0, []byte("q2"))
+	rootA, rootB := string(root)+"/0", string(root)+"/1"
+	fam := []c03tx{
+		{p1, []string{rootA}, []string{"k1@"}, "k1", nil},
+		{p2, []string{rootA}, []string{"k1@"}, "", nil},
+		{p3, []string{rootB}, []string{"k1@"}, "k1", nil},
+		{p4, []string{"p1/0"}, nil, "", []int{0}},
+		{q1, nil, []string{"k1@p3"}, "k1", []int{2}},
+		{q2, nil, []string{"k1@p3"}, "k1", []int{2}},
+	}
+	// oracle state
+	unspent := map[string]bool{rootA: true, rootB: true}
+	keyVer := "" // current version of k1: "" never written, else the writer's id
+	inPool := map[int]bool{}
+	confirmed := map[int]bool{}
+	applied := func(i int) { // effects of member i on the oracle
+		for _, u := range fam[i].utxo {
+			delete(unspent, u)
+		}
+		for off := range fam[i].tx.TxOutputs {
+			unspent[string(fam[i].tx.Txid)+"/"+string([]byte{byte('0' + off)})] = true
+		}
+		if fam[i].wkey != "" {
+			keyVer = string(fam[i].tx.Txid)
+		}
+	}
+	current := func(i int) bool {
+		for _, u := range fam[i].utxo {
+			if !unspent[u] {
+				return false
+			}
+		}
+		for _, k := range fam[i].keyIn {
+			if k != "k1@"+keyVer {
+				return false
+			}
+		}
+		return true
+	}
+	tip := e.Root
+	for step := 0; step < K; step++ {
+		op := vrt.Choice("op", 2)
+		if op == 0 {
+			i := vrt.Choice("member", len(fam))
+			err := s.DoTx(fam[i].tx)
+			cur := current(i) && !inPool[i] && !confirmed[i]
+			vrt.Cover("admitted", err == nil)
+			vrt.Cover("refused", err != nil)
+			vrt.Known("stale-batch-cache-after-block", len(confirmed) > 0 && fam[i].wkey == "k1" && len(fam[i].keyIn) > 0)
+			vrt.Assert(err != nil || cur, "admitted-only-if-every-input-is-current")
+			vrt.Assert(err == nil || !cur, "current-transaction-is-not-refused")
+			if err == nil {
+				inPool[i] = true
+				applied(i)
+			}
+			continue
+		}
+		// a block from a peer carrying coinbase + one of p1, p2, p3
+		i := vrt.Choice("block-member", 3)
+		if confirmed[i] {
+			continue
+		}
+		b := vkit.Block(tip.Blockid, int32(10+step), []*pb.Transaction{vkit.Coinbase("cb"+string([]byte{byte('0' + step)}), "M", []byte{7}), fam[i].tx})
+		if st := e.L.ConfirmBlock(b, false); !st.Succ {
+			vrt.Assert(false, "ledger-confirms-peer-block")
+			return
+		}
+		// expected: pool transactions that conflict with the block's transaction (and what depends on them) leave the pool
+		conflicts := func(a, c int) bool {
+			for _, u := range fam[a].utxo {
+				for _, v := range fam[c].utxo {
+					if u == v {
+						return true
+					}
+				}
+			}
+			// reading or superseding the same key version as a writer conflicts
+			if (fam[a].wkey != "" || fam[c].wkey != "") && len(fam[a].keyIn) > 0 && len(fam[c].keyIn) > 0 && fam[a].keyIn[0] == fam[c].keyIn[0] {
+				return true
+			}
+			return false
+		}
+		// rebuild the oracle: confirmed effects first, then surviving pool members in admission order is not tracked;
+		// so recompute from scratch: drop conflicting pool members and their dependants
+		drop := map[int]bool{}
+		for j := range fam {
+			if inPool[j] && j != i && conflicts(j, i) {
+				drop[j] = true
+			}
+		}
+		for changed := true; changed; {
+			changed = false
+			for j := range fam {
+				if inPool[j] && !drop[j] {
+					for _, d := range fam[j].deps {
+						if drop[d] {
+							drop[j] = true
+							changed = true
+						}
+					}
+				}
+			}
+		}
+		// is the block's transaction valid on the confirmed state (pool aside)?
+		validOnConfirmed := true
+		for _, u := range fam[i].utxo {
+			spentByConfirmed := false
+			for j := range fam {
+				if confirmed[j] {
+					for _, v := range fam[j].utxo {
+						if v == u {
+							spentByConfirmed = true
+						}
+					}
+				}
+			}
+			if spentByConfirmed {
+				validOnConfirmed = false
+			}
+		}
+		for j := range fam {
+			if confirmed[j] && fam[j].wkey == "k1" && len(fam[i].keyIn) > 0 {
+				validOnConfirmed = false // k1 is no longer at the never-written version
+			}
+		}
+		err := s.Play(b.Blockid)
+		vrt.Quiesce()
+		vrt.Cover("block-played", err == nil)
+		vrt.Assert((err == nil) == validOnConfirmed, "block-admitted-iff-its-transaction-is-current-on-the-confirmed-state")
+		if err != nil {
+			return // the state after a failed play is C05's subject
+		}
+		tip = b
+		// new oracle state: recompute from genesis: confirmed members, then surviving pool members
+		wasPool := inPool[i]
+		confirmed[i] = true
+		delete(inPool, i)
+		for j := range drop {
+			delete(inPool, j)
+		}
+		unspent = map[string]bool{rootA: true, rootB: true}
+		keyVer = ""
+		for pass := 0; pass < 2; pass++ {
+			for j := range fam {
+				if (pass == 0 && confirmed[j]) || (pass == 1 && inPool[j]) {
+					applied(j)
+				}
+			}
+		}
+		_ = wasPool
+		// the pool holds exactly the surviving members
+		pool, perr := s.GetUnconfirmedTx(false)
+		vrt.Assert(perr == nil, "pool-readable")
+		got := map[string]bool{}
+		for _, t := range pool {
+			got[string(t.Txid)] = true
+		}
+		for j := range fam {
+			vrt.Assert(got[string(fam[j].tx.Txid)] == inPool[j], "pool-holds-exactly-the-non-conflicting-pending-transactions")
+		}
+	}
+	// no two admitted transactions consume the same output or supersede the same key version
+	var adm []int
+	for j := range fam {
+		if inPool[j] || confirmed[j] {
+			adm = append(adm, j)
+		}
+	}
+	for a := 0; a < len(adm); a++ {
+		for c := a + 1; c < len(adm); c++ {
+			for _, u := range fam[adm[a]].utxo {
+				for _, v := range fam[adm[c]].utxo {
+					vrt.Assert(u != v, "no-output-spent-twice")
+				}
+			}
+			if fam[adm[a]].wkey != "" && fam[adm[c]].wkey != "" {
+				vrt.Assert(fam[adm[a]].keyIn[0] != fam[adm[c]].keyIn[0], "no-key-version-superseded-twice")
+			}
+		}
+	}
+}
+
+func VerifC03Quick()    { verifC03(2) }
+func VerifC03Thorough() { verifC03(3) }
